@@ -141,6 +141,16 @@ def run_case(case):
         if case["sched_seed"] % 3 == 0:
             comm = comm.Split(0, -rank)          # the same processes numbered in the opposite order to the world communicator
         w = MPI.current_world()
+        if case["sched_seed"] % 4 == 1 and len(names) > 1:
+            # history across objects: another handler on the same process grid whose layouts carry the SAME names with other
+            # orderings (the orderings rotated among the names) is built and used first; it must not influence the handler under test
+            rot = dict(zip(names, [layouts[n] for n in names[1:] + names[:1]]))
+            try:
+                hd = lay.getLayoutHandler(comm, rot, list(nprocs), eta)
+                a_, b_ = np.zeros(hd.bufferSize, dtype=lo.np_dtype(dtype)), np.zeros(hd.bufferSize, dtype=lo.np_dtype(dtype))
+                hd.transpose(a_, b_, names[0], names[1])
+            except RuntimeError:
+                pass
         try:
             h = lay.getLayoutHandler(comm, dict(layouts), list(nprocs), eta)
         except RuntimeError as e:
